@@ -32,7 +32,233 @@ from unified_planning.model import (InstantaneousAction, DurativeAction, Problem
                                     TemporalOversubscription)
 from unified_planning.model.fluent import get_all_fluent_exp
 
-UNITS = []
+# ------------------------------------------------------------------------------------------------ proved kernels
+# The per-construct updaters of _KindFactory on the real source: the kind is a recorder of set_*/unset_* calls, the
+# constructs (operator set of an expression, type predicates, effect predicates) are uninterpreted; the post-condition
+# is the construct -> feature table of the module docstring, for every input.
+import z3
+from pyvc.values import Bool as PBool, Int as PInt
+from pyvc.values import Ref, Seq, Map, Set, Opt, Enum, SBool, SRef, fresh_name, to_z3  # explicit: a star import would shadow the shortcuts' And/Or/Not
+from pyvc.values import Rec, ExcVal, SUnion
+from pyvc.verify import Unit
+from pyvc.engine import LoopSpec, OPAQUE
+from pyvc import builtins as B
+import unified_planning.model.problem as _pm
+
+KindRec = Ref("KindRecorder")
+OpSet = Ref("OperatorSet")
+FNode10 = Ref("FNode10")
+Type10 = Ref("Type10")
+Fluent10 = Ref("Fluent10")
+Param10 = Ref("Param10")
+Effect10 = Ref("Effect10")
+Var10 = Ref("Variable10")
+OKE = Enum(OK)
+
+
+def _p(t, name, *argsorts):
+    return B._uf(f"{t.name}.{name}()", t.z3sort(), *argsorts, z3.BoolSort())
+
+
+def _install(eng):
+    eng.partial_classes.add(_pm._KindFactory)
+    for m in ("set_typing", "set_parameters", "set_effects_kind", "set_conditions_kind", "set_fluents_type", "set_numbers", "set_problem_type",
+              "set_time", "set_expression_duration", "set_quality_metrics", "set_problem_class", "set_initial_state", "set_constraints_kind"):
+        KindRec.methods[m] = (lambda e, st, selfv, a, k: (_log(st, "set", a[0]), iter([(st, None)]))[1])
+    for m in ("unset_problem_type", "unset_time", "unset_effects_kind"):
+        KindRec.methods[m] = (lambda e, st, selfv, a, k: (_log(st, "unset", a[0]), iter([(st, None)]))[1])
+    OpSet.methods["__contains__"] = lambda e, st, selfv, a, k: iter([(st, SBool(B._uf("OperatorSet.has", OpSet.z3sort(), OKE.z3sort(), z3.BoolSort())(selfv.z, to_z3(a[0], OKE))))])
+    for n in ("is_user_type", "is_bool_type", "is_int_type", "is_real_type"):
+        Type10.observers[n] = ((), PBool)
+    Type10.fields["father"] = Opt(Type10)
+    Type10.fields["lower_bound"] = Opt(PInt)
+    Type10.fields["upper_bound"] = Opt(PInt)
+    Param10.fields["type"] = Type10
+    Fluent10.fields["type"] = Type10
+    Fluent10.fields["signature"] = Seq(Param10)
+    FNode10.fields["type"] = Type10
+    for n in ("is_int_constant", "is_real_constant", "is_constant"):
+        FNode10.observers[n] = ((), PBool)
+    FNode10.observers["constant_value"] = ((), PInt)
+    FNode10.observers["fluent"] = ((), Fluent10)
+    Effect10.fields["value"] = FNode10
+    Effect10.fields["fluent"] = FNode10
+    Effect10.fields["condition"] = FNode10
+    Effect10.fields["forall"] = Seq(Var10)
+    Var10.fields["type"] = Type10
+    for n in ("is_conditional", "is_forall", "is_increase", "is_decrease", "is_assignment", "is_continuous_increase", "is_continuous_decrease"):
+        Effect10.observers[n] = ((), PBool)
+    Type10.pycls = object
+    Type10.isinstance_hook = lambda e, st, v, clss: True     # `assert isinstance(numeric_type, (_RealType, _IntType))` after the is_*_type test
+
+
+def _log(st, what, name, guard=None):
+    st.ghost["log"] = st.ghost.get("log", []) + [(what, name, guard if guard is not None else z3.BoolVal(True))]
+
+
+def _present(st, name):
+    """symbolic membership of a feature after the recorded sequence of (guarded) set / unset calls"""
+    cur = z3.BoolVal(False)
+    for what, n, g in st.ghost.get("log", []):
+        if n != name:
+            continue
+        cur = z3.Or(cur, g) if what == "set" else z3.And(cur, z3.Not(g))
+    return cur
+
+
+def _expr_contract(e_, st, args, kw):
+    """contract of update_problem_kind_expression (proved as its own unit): guarded sets per operator of the expression"""
+    exp = args[1]
+    for kind, feat in ((OK.EQUALS, "EQUALITIES"), (OK.NOT, "NEGATIVE_CONDITIONS"), (OK.OR, "DISJUNCTIVE_CONDITIONS"), (OK.IMPLIES, "DISJUNCTIVE_CONDITIONS"),
+                       (OK.EXISTS, "EXISTENTIAL_CONDITIONS"), (OK.FORALL, "UNIVERSAL_CONDITIONS")):
+        _log(st, "set", feat, _has_op(exp, kind))
+    _log(st, "unset", "SIMPLE_NUMERIC_PLANNING", z3.Bool(fresh_name("nonlinear")))
+    _log(st, "set", "INTERPRETED_FUNCTIONS_IN_CONDITIONS", _has_op(exp, OK.INTERPRETED_FUNCTION_EXP))
+    yield st, None
+
+
+def _factory(eng, st, extra=None):
+    ops_ext = Ref("OperatorsExtractor10")
+    ops_ext.methods["get"] = lambda e, s, selfv, a, k: iter([(s, _ops_of(s, a[0]))])
+    lin = Ref("LinearChecker10")
+    lin.methods["get_fluents"] = lambda e, s, selfv, a, k: iter([(s, (PBool.fresh("is_linear"), OPAQUE, OPAQUE))])
+    fve = Ref("FreeVarsExtractor10")
+    fve.methods["get"] = lambda e, s, selfv, a, k: iter([(s, _fluents_in(e, s, a[0]))])
+    envr = Ref("Environment10", fields={"free_vars_extractor": fve})
+    fields = {"kind": KindRec.fresh("kind"), "operators_extractor": ops_ext.fresh("oe"), "linear_checker": lin.fresh("lc"), "environment": envr.fresh("env")}
+    for n, t in (("static_fluents", Fluent10), ("unused_fluents", Fluent10), ("fluents_in_durations", Fluent10), ("fluents_in_action_costs", Fluent10),
+                 ("fluents_to_only_increase", FNode10), ("fluents_to_only_decrease", FNode10)):
+        fields[n] = st.alloc(eng.fresh_of(st, Set(t), n), "set")
+    fields.update(extra or {})
+    return st.alloc(Rec(_pm._KindFactory, fields), "factory")
+
+
+def _ops_of(st, e):
+    return SRef(OpSet, B._uf("FNode10.ops", FNode10.z3sort(), OpSet.z3sort())(e.z))
+
+
+def _fluents_in(eng, st, e):
+    return B.uf_value(eng, st, "FNode10.free_fluents", [e.z], [FNode10.z3sort()], Set(FNode10))
+
+
+def _has_op(e, kind):
+    ops = B._uf("FNode10.ops", FNode10.z3sort(), OpSet.z3sort())(e.z)
+    return B._uf("OperatorSet.has", OpSet.z3sort(), OKE.z3sort(), z3.BoolSort())(ops, OKE.consts[kind])
+
+
+class KindUnit(Unit):
+    prop = "C10"
+    allowed_raises = ()
+
+    def __init__(self, meth, mk_arg, table, doc):
+        self.meth, self.mk_arg, self.table = meth, mk_arg, table
+        self.name = f"_KindFactory.{meth}"
+        self.doc = doc
+
+    def target(self):
+        return getattr(_pm._KindFactory, self.meth)
+
+    def configure(self, eng):
+        _install(eng)
+        eng.assert_raises = False
+        if self.meth != "update_problem_kind_expression":
+            eng.contracts[_pm._KindFactory.update_problem_kind_expression] = _expr_contract
+        # loops over parameters / quantified variables only *set* features (census below): cut with a trivial invariant
+        true_inv = lambda L: SBool(z3.BoolVal(True))  # noqa
+        eng.loops[("unified_planning.model.problem._KindFactory.update_problem_kind_fluent", 0)] = LoopSpec(true_inv)
+        eng.loops[("unified_planning.model.problem._KindFactory.update_problem_kind_effect", 0)] = LoopSpec(true_inv)
+
+    def setup(self, eng, st):
+        fac = _factory(eng, st)
+        arg = self.mk_arg(eng, st)
+        return [fac, arg], {}, dict(arg=arg, fac=fac)
+
+    def post(self, eng, ctx, st, out):
+        if out[0] != "return":
+            return
+        for label, cond, alts in self.table(eng, st, ctx["arg"], ctx):
+            st.oblige(f"{label} -> {' or '.join(alts)}", z3.Implies(cond, z3.Or([_present(st, a) for a in alts])))
+
+
+def _t_expr(eng, st, e, ctx):
+    yield "Equals", _has_op(e, OK.EQUALS), ["EQUALITIES"]
+    yield "Not", _has_op(e, OK.NOT), ["NEGATIVE_CONDITIONS"]
+    yield "Or", _has_op(e, OK.OR), ["DISJUNCTIVE_CONDITIONS"]
+    yield "Implies", _has_op(e, OK.IMPLIES), ["DISJUNCTIVE_CONDITIONS"]
+    yield "Exists", _has_op(e, OK.EXISTS), ["EXISTENTIAL_CONDITIONS"]
+    yield "Forall", _has_op(e, OK.FORALL), ["UNIVERSAL_CONDITIONS"]
+
+
+def _tp(t, n):
+    return _p(Type10, n)(t)
+
+
+def _t_type(eng, st, t, ctx):
+    isnone = B._uf("Type10.father.isnone", Type10.z3sort(), z3.BoolSort())(t.z)
+    yield "user type", _tp(t.z, "is_user_type"), ["FLAT_TYPING"]
+    yield "user type with a father", z3.And(_tp(t.z, "is_user_type"), z3.Not(isnone)), ["HIERARCHICAL_TYPING"]
+
+
+def _t_param(eng, st, p, ctx):
+    t = B._uf("Param10.type", Param10.z3sort(), Type10.z3sort())(p.z)
+    lbn = B._uf("Type10.lower_bound.isnone", Type10.z3sort(), z3.BoolSort())(t)
+    ubn = B._uf("Type10.upper_bound.isnone", Type10.z3sort(), z3.BoolSort())(t)
+    b, r, i, u = (_tp(t, n) for n in ("is_bool_type", "is_real_type", "is_int_type", "is_user_type"))
+    # the type predicates are mutually exclusive (one concrete Type class each): precondition of the table
+    excl = z3.And(z3.Not(z3.And(b, r)), z3.Not(z3.And(b, i)), z3.Not(z3.And(r, i)))
+    yield "bool parameter", z3.And(excl, b), ["BOOL_ACTION_PARAMETERS"]
+    yield "real parameter", z3.And(excl, r), ["REAL_ACTION_PARAMETERS"]
+    yield "int parameter without a bound", z3.And(excl, i, z3.Or(lbn, ubn)), ["UNBOUNDED_INT_ACTION_PARAMETERS"]
+    yield "int parameter with both bounds", z3.And(excl, i, z3.Not(lbn), z3.Not(ubn)), ["BOUNDED_INT_ACTION_PARAMETERS"]
+    yield "user-typed parameter", u, ["FLAT_TYPING"]
+
+
+def _t_effect(eng, st, e, ctx):
+    o = lambda n: _p(Effect10, n)(e.z)  # noqa
+    yield "conditional effect", o("is_conditional"), ["CONDITIONAL_EFFECTS"]
+    yield "forall effect", o("is_forall"), ["FORALL_EFFECTS"]
+    yield "increase effect", o("is_increase"), ["INCREASE_EFFECTS"]
+    yield "decrease effect", z3.And(o("is_decrease"), z3.Not(o("is_increase"))), ["DECREASE_EFFECTS"]
+    val = B._uf("Effect10.value", Effect10.z3sort(), FNode10.z3sort())(e.z)
+    vt = B._uf("FNode10.type", FNode10.z3sort(), Type10.z3sort())(val)
+    has = B._uf("FNode10.free_fluents.has", FNode10.z3sort(), z3.ArraySort(FNode10.z3sort(), z3.BoolSort()))(val)
+    x = z3.Const(fresh_name("x"), FNode10.z3sort())
+    nonempty = z3.Exists([x], z3.Select(has, x))
+    plain = z3.And(o("is_assignment"), z3.Not(o("is_increase")), z3.Not(o("is_decrease")))
+    num = z3.Or(_tp(vt, "is_int_type"), _tp(vt, "is_real_type"))
+    yield "assignment whose numeric value reads a fluent", z3.And(plain, num, nonempty), ["FLUENTS_IN_NUMERIC_ASSIGNMENTS", "STATIC_FLUENTS_IN_NUMERIC_ASSIGNMENTS"]
+    yield "assignment whose Boolean value reads a fluent", z3.And(plain, z3.Not(num), _tp(vt, "is_bool_type"), nonempty), ["FLUENTS_IN_BOOLEAN_ASSIGNMENTS", "STATIC_FLUENTS_IN_BOOLEAN_ASSIGNMENTS"]
+    yield "assignment whose object value reads a fluent", z3.And(plain, z3.Not(num), z3.Not(_tp(vt, "is_bool_type")), _tp(vt, "is_user_type"), nonempty),\
+        ["FLUENTS_IN_OBJECT_ASSIGNMENTS", "STATIC_FLUENTS_IN_OBJECT_ASSIGNMENTS"]
+    isconst = z3.Or(_p(FNode10, "is_int_constant")(val), _p(FNode10, "is_real_constant")(val))
+    yield "increase by a non-constant value that reads a fluent", z3.And(o("is_increase"), z3.Not(isconst), nonempty), ["FLUENTS_IN_NUMERIC_ASSIGNMENTS", "STATIC_FLUENTS_IN_NUMERIC_ASSIGNMENTS"]
+    cond = B._uf("Effect10.condition", Effect10.z3sort(), FNode10.z3sort())(e.z)
+    yield "Not in the condition of a conditional effect", z3.And(o("is_conditional"), _has_op(SRef(FNode10, cond), OK.NOT)), ["NEGATIVE_CONDITIONS"]
+    yield "Or in the condition of a conditional effect", z3.And(o("is_conditional"), _has_op(SRef(FNode10, cond), OK.OR)), ["DISJUNCTIVE_CONDITIONS"]
+
+
+def _t_fluent(eng, st, f, ctx):
+    t = B._uf("Fluent10.type", Fluent10.z3sort(), Type10.z3sort())(f.z)
+    b, r, i, u = (_tp(t, n) for n in ("is_bool_type", "is_real_type", "is_int_type", "is_user_type"))
+    excl = z3.And(z3.Not(z3.And(u, r)), z3.Not(z3.And(u, i)), z3.Not(z3.And(r, i)))
+    unused = st.load(st.getfield(ctx["fac"], "unused_fluents")).contains(f).z
+    lbn = B._uf("Type10.lower_bound.isnone", Type10.z3sort(), z3.BoolSort())(t)
+    ubn = B._uf("Type10.upper_bound.isnone", Type10.z3sort(), z3.BoolSort())(t)
+    yield "object fluent", z3.And(excl, u), ["OBJECT_FLUENTS"]
+    yield "object fluent's type", z3.And(excl, u), ["FLAT_TYPING"]
+    yield "used int fluent", z3.And(excl, i, z3.Not(unused)), ["INT_FLUENTS"]
+    yield "used real fluent", z3.And(excl, r, z3.Not(unused)), ["REAL_FLUENTS"]
+    yield "numeric fluent with a bound", z3.And(excl, z3.Or(i, r), z3.Or(z3.Not(lbn), z3.Not(ubn))), ["BOUNDED_TYPES"]
+
+
+P_UNITS = [
+    KindUnit("update_problem_kind_expression", lambda eng, st: FNode10.fresh("exp"), _t_expr, "operator of a condition -> conditions-kind feature"),
+    KindUnit("update_problem_kind_type", lambda eng, st: Type10.fresh("type"), _t_type, "user type -> typing features"),
+    KindUnit("update_action_parameter", lambda eng, st: Param10.fresh("param"), _t_param, "action parameter type -> parameters feature"),
+    KindUnit("update_problem_kind_effect", lambda eng, st: Effect10.fresh("effect"), _t_effect, "effect kind / condition -> effects-kind features"),
+    KindUnit("update_problem_kind_fluent", lambda eng, st: Fluent10.fresh("fluent"), _t_fluent, "fluent type -> fluents-type / numbers / typing features"),
+]
+UNITS = P_UNITS
 
 
 def ops_of(e, acc=None):
@@ -288,6 +514,25 @@ def corpus():
     return out
 
 
+def extra_checks(tier, seed):
+    """census (every run): the loops cut with a trivial invariant in the units above only *set* features -- no unset_* call inside them"""
+    import ast
+    import inspect
+    import textwrap
+    failures, n = [], 0
+    for meth in ("update_problem_kind_fluent", "update_problem_kind_effect"):
+        tree = ast.parse(textwrap.dedent(inspect.getsource(getattr(_pm._KindFactory, meth))))
+        for node in ast.walk(tree):
+            if isinstance(node, (ast.For, ast.While)):
+                for sub in ast.walk(node):
+                    n += 1
+                    if isinstance(sub, ast.Call) and isinstance(sub.func, ast.Attribute) and sub.func.attr.startswith("unset_"):
+                        failures.append({"what": f"{meth}: a loop cut by the contract calls {sub.func.attr} (line {sub.lineno}); the proof's frame assumption is void",
+                                         "observed": ast.unparse(sub)})
+    return {"failures": failures, "obligations": 1, "discharged": 0 if failures else 1, "ast_nodes_scanned": n,
+            "census": "no unset_* call inside the parameter / quantified-variable loops of update_problem_kind_fluent / update_problem_kind_effect"}
+
+
 def bounded(tier, seed):
     from rtc.gen import Gen
     from rtc.tgen import TGen
@@ -359,8 +604,10 @@ def replay_file(data):
     return {"reproduced": bool(failures), "concrete": c, "observed": [f["what"] for f in failures][:5]}
 
 
-LEVEL = "exploration"
+LEVEL = "other"
 EXPLANATION = __doc__
-TRUSTED = ["bounded stand-in only: _KindFactory (450 lines of feature bookkeeping over walkers) is not under a deductive contract",
+TRUSTED = ["proved: the per-construct updaters update_problem_kind_expression/type/effect/fluent and update_action_parameter (construct -> feature table); the "
+           "traversal that applies them to every action, goal, timed effect, metric and the duration / metric / initial-state updaters are bounded only",
+           "OperatorsExtractor / FreeVarsExtractor / LinearChecker results are uninterpreted (their own correctness is C17 and the walkers' contracts)",
            "the extractor's reading of 'syntactically uses' (conservative: Iff is not counted as disjunctive; unused fluents demand nothing)"]
 USES_THEORY = False
